@@ -96,6 +96,7 @@ def mutating_methods(repo):
 class _H(Hooks):
     unroll = 1
     mut = frozenset()
+    inline_small = False
 
     def pure(self, ftext):
         if "." in ftext:
@@ -104,19 +105,46 @@ class _H(Hooks):
                 return False
         return True
 
+    def inline(self, call, ftext, st):
+        """event tables: a call of a small, loop-free method of the same class is interpreted in place, on both sides
+        of the comparison, so that `self.append_space()` and the three statements it stands for are the same thing"""
+        if not getattr(self, "inline_small", False) or getattr(self, "fi", None) is None or self.fi.cls is None:
+            return None
+        if not ftext.startswith("self.") or ftext.count(".") != 1:
+            return None
+        m = self.fi.cls.find_method(ftext[5:])
+        if m is None or m.node is self.fi.node:
+            return None
+        body = [x for x in m.node.body if not (isinstance(x, ast.Expr) and isinstance(x.value, ast.Constant))]
+        if len(body) > 6 or any(isinstance(n, (ast.For, ast.While, ast.Try, ast.With, ast.Yield, ast.YieldFrom)) for n in ast.walk(m.node)):
+            return None
+        if any(isinstance(n, ast.Call) and u(n.func) == ftext for n in ast.walk(m.node)):
+            return None  # recursive
+        if any(u(d) in ("property", "staticmethod", "classmethod") for d in m.node.decorator_list):
+            return None
+        # dynamic dispatch: a method that some subclass overrides is not the method that runs
+        try:
+            for sub in self.fi.module.repo.subclasses(self.fi.cls):
+                if sub is not self.fi.cls and ftext[5:] in sub.methods:
+                    return None
+        except Exception:
+            return None
+        return m.node
+
 
 class _H2(_H):
     unroll = 2
 
 
-def _norm_atom(a):
+def _norm_atom(a, keep_versions=False):
     if a.startswith("raises(") and "->" in a:
         # `raises(<statement text> -> Exc)`: the statement is source text (local names): keep what it calls and the exception
         body, exc = a[len("raises("):].rsplit("->", 1)
         a = "raises(" + ",".join(c for c in re.findall(r"[\w.]+(?=\()", body) if c.startswith("self.")) + " -> " + exc.strip()
     for pat, rep in _canon_forms:
         a = re.sub(pat, rep, a)
-    a = re.sub(r"@\d+", "", a)
+    if not keep_versions:
+        a = re.sub(r"@\d+", "", a)
     a = re.sub(r"#L\d+", "#L", a)
     a = re.sub(r"#\d+", "#", a)
     return a
@@ -137,12 +165,13 @@ def _norm_atoms(atoms):
 _cache = {}
 
 
-def table(fi, max_paths=4000, unroll=1, events=False):
+def table(fi, max_paths=4000, unroll=1, events=False, inline_small=False):
     """decision table of a function; with events=True calls of state-changing methods of the same object
     are recorded as effects in call order even when their value is used (token-stream consumers etc.)"""
-    key = (fi.module.repo.root, fi.key, unroll, events)
+    key = (fi.module.repo.root, fi.key, unroll, events, inline_small)
     if key not in _cache:
         _H.mut = frozenset(mutating_methods(reference_repo()) | mutating_methods(fi.module.repo)) if events else frozenset()
+        _H.inline_small = inline_small
         try:
             _cache[key] = Evaluator(_H2() if unroll == 2 else _H0() if unroll == 0 else _H(), max_paths=max_paths if unroll < 2 else 600).paths(fi.node)
         except (AnalysisError, RecursionError) as e:
@@ -159,11 +188,15 @@ class _H0(_H):
 
 def tables(cur_f, ref_f):
     """deepest unrolling both sides can afford"""
-    a, b = table(cur_f, unroll=2, events=True), table(ref_f, unroll=2, events=True)
+    kw = dict(events=True, inline_small=True)
+    a, b = table(cur_f, unroll=2, **kw), table(ref_f, unroll=2, **kw)
     if isinstance(a, Exception) or isinstance(b, Exception):
-        a, b = table(cur_f, events=True), table(ref_f, events=True)
+        a, b = table(cur_f, **kw), table(ref_f, **kw)
     if isinstance(a, Exception) or isinstance(b, Exception):
-        a, b = table(cur_f, unroll=0, events=True), table(ref_f, unroll=0, events=True)
+        a, b = table(cur_f, unroll=0, **kw), table(ref_f, unroll=0, **kw)
+    if isinstance(a, Exception) or isinstance(b, Exception):
+        kw = dict(events=True)
+        a, b = table(cur_f, unroll=0, **kw), table(ref_f, unroll=0, **kw)
     return a, b
 
 
@@ -312,7 +345,14 @@ def new_skip_conditions(repo, short, qualname):
     for p in ct:
         for a in p.atoms:
             na = _norm_atom(a)
-            if na not in ref_atoms and _skel(na) not in ref_skels and not na.startswith("more(") and not na.startswith("raises(") and a not in new_atoms:
+            if na.startswith("raises("):
+                # a statement that can fail in a new way inside a try: new only if it calls something (of this object)
+                # that no guarded statement of the reviewed version calls
+                if na in ref_atoms or na.startswith("raises( ->") or a in new_atoms:
+                    continue
+                new_atoms.append(a)
+                continue
+            if na not in ref_atoms and _skel(na) not in ref_skels and not na.startswith("more(") and a not in new_atoms:
                 m = re.fullmatch(r"isinstance\(.*, (\w[\w.]*)\)", na)
                 if m and m.group(1) in ref_isinst:
                     continue  # the same type filter, written as a loop test instead of a comprehension filter (or vice versa)
@@ -434,6 +474,69 @@ def _res_key(p):
     return (kind, _skel(_norm_atom(vtext(p.result[1]))) if p.result[1] is not None else None)
 
 
+def _must_assign(stmts, var):
+    """does every path through `stmts` that reaches the end of the loop body (normally or by `continue`) assign `var`?"""
+    def block(ss, assigned):
+        # returns (assigned_at_normal_exit | None if no normal exit, ok) where ok=False when some continue/normal path lacks it
+        ok = True
+        for s in ss:
+            if isinstance(s, ast.Assign) and any(isinstance(t, ast.Name) and t.id == var for t in s.targets):
+                assigned = True
+            elif isinstance(s, ast.AugAssign) and isinstance(s.target, ast.Name) and s.target.id == var:
+                assigned = True
+            elif isinstance(s, ast.If):
+                a1, ok1 = block(s.body, assigned)
+                a2, ok2 = block(s.orelse, assigned)
+                ok = ok and ok1 and ok2
+                exits = [a for a in (a1, a2) if a is not None]
+                if not exits:
+                    return None, ok
+                assigned = all(exits)
+            elif isinstance(s, (ast.For, ast.While)):
+                _, okb = block(s.body, assigned)  # inner loop: its own continues end ITS iteration; conservative: ignore
+            elif isinstance(s, ast.Try):
+                a1, ok1 = block(s.body + s.orelse, assigned)
+                hs = [block(h.body, assigned) for h in s.handlers]
+                ok = ok and ok1 and all(h[1] for h in hs)
+                exits = [a for a in [a1] + [h[0] for h in hs] if a is not None]
+                if not exits:
+                    return None, ok
+                assigned = all(exits)
+                if s.finalbody:
+                    assigned, okf = block(s.finalbody, assigned)
+                    ok = ok and okf
+            elif isinstance(s, ast.With):
+                assigned, okw = block(s.body, assigned)
+                ok = ok and okw
+                if assigned is None:
+                    return None, ok
+            elif isinstance(s, ast.Continue):
+                return None, ok and assigned
+            elif isinstance(s, (ast.Break, ast.Return, ast.Raise)):
+                return None, ok
+        return assigned, ok
+
+    a, ok = block(stmts, False)
+    return ok and (a is None or a)
+
+
+def _iteration_flags(fn):
+    """local flags that are (re)assigned a constant on every iteration of a loop that also reads them: var -> bool"""
+    out = {}
+    for lp in ast.walk(fn):
+        if not isinstance(lp, (ast.For, ast.While)):
+            continue
+        consts = {}
+        for n in ast.walk(lp):
+            if isinstance(n, ast.Assign) and len(n.targets) == 1 and isinstance(n.targets[0], ast.Name) and isinstance(n.value, ast.Constant) and isinstance(n.value.value, bool):
+                consts.setdefault(n.targets[0].id, set()).add(n.value.value)
+        for var, vals in consts.items():
+            if not any(isinstance(n, ast.Name) and n.id == var and isinstance(n.ctx, ast.Load) for n in ast.walk(lp)):
+                continue
+            out[var] = out.get(var, True) and _must_assign(lp.body, var)
+    return out
+
+
 def refinement_findings(repo, short, qualname):
     """Does the current decision table of the function still do everything the reviewed
     (reference) table does, case by case?  Reports:
@@ -449,6 +552,15 @@ def refinement_findings(repo, short, qualname):
         return []
     if _same(cur_f, ref_f):
         return []
+    # a per-iteration flag (set True in one branch, False in the others) that the reviewed version re-assigns on every
+    # iteration and the current one does not: its value now survives from one iteration into the next
+    rflags, cflags = _iteration_flags(ref_f.node), _iteration_flags(cur_f.node)
+    pre = []
+    for var, every in rflags.items():
+        if every and cflags.get(var) is False:
+            pre.append(("flag-not-reset", var, None, f"the loop flag `{var}` is no longer assigned on every iteration: an iteration that does not set it now sees the value left by an earlier one"))
+    if pre:
+        return pre
     ct, rt = tables(cur_f, ref_f)
     if isinstance(ct, Exception) or isinstance(rt, Exception):
         return []
@@ -460,6 +572,74 @@ def refinement_findings(repo, short, qualname):
         _canon_forms = []
 
 
+_rewritten = {}
+
+
+def _stmt_texts(fn):
+    out = []
+
+    def walk(body):
+        for s in body:
+            if isinstance(s, (ast.FunctionDef, ast.AsyncFunctionDef, ast.ClassDef)):
+                continue
+            if isinstance(s, ast.Expr) and isinstance(s.value, ast.Constant) and isinstance(s.value.value, str):
+                continue
+            if isinstance(s, (ast.If, ast.For, ast.While, ast.With, ast.Try)):
+                out.append(u(s).split("\n")[0])
+                for fld in ("body", "orelse", "finalbody"):
+                    walk(getattr(s, fld, []) or [])
+                for h in getattr(s, "handlers", []) or []:
+                    out.append("except " + (u(h.type) if h.type else ""))
+                    walk(h.body)
+            else:
+                out.append(u(s))
+
+    walk(fn.body)
+    return out
+
+
+def rewritten(repo, key):
+    """Was the function an instance key `module:qualname:...` is about re-written wholesale since it was reviewed?
+    (>= 16 changed statements, or part of it moved into functions the snapshot does not have.)  Measured on the
+    seeded faulty changes (234) and the independent refactorings (176): no faulty change rewrites 16 statements and
+    3 introduce a function; 21 refactorings rewrite 16+ and 60 extract helpers.  Rules that recognise constructs by
+    their syntax, and the comparison with the snapshot (RX), are calibrated on the reviewed shape: on a re-written
+    function their report means "this function needs to be reviewed again", not "the property is violated"."""
+    parts = key.split(":")
+    if len(parts) < 2:
+        return False
+    short, qual = parts[0], parts[1]
+    ck = (repo.root, short, qual)
+    if ck in _rewritten:
+        return _rewritten[ck]
+    res = False
+    try:
+        import difflib
+
+        ref = reference_repo()
+        if os.path.abspath(repo.root) != os.path.abspath(ref.root):
+            m = repo.modules.get("codebasin." + short) or next((x for x in repo.modules.values() if x.short == short), None)
+            rm = next((x for x in ref.modules.values() if x.short == short), None)
+            q = qual.replace(".<visitor>", "")
+            f = m.functions.get(q) if m else None
+            rf = rm.functions.get(q) if rm else None
+            if f is not None and rf is None and m is not None and rm is not None:
+                res = True  # a function the snapshot does not have
+            elif f is not None and rf is not None:
+                if f.new_helpers():
+                    res = True
+                else:
+                    a, b = _stmt_texts(rf.node), _stmt_texts(f.node)
+                    if a != b:
+                        sm = difflib.SequenceMatcher(None, a, b)
+                        changed = sum(max(i2 - i1, j2 - j1) for tag, i1, i2, j1, j2 in sm.get_opcodes() if tag != "equal")
+                        res = changed >= 16 or (changed >= 8 and changed >= 0.6 * max(1, len(a)))
+    except Exception:
+        res = False
+    _rewritten[ck] = res
+    return res
+
+
 # value forms known to be interchangeable in one function (domain knowledge, one line of reason each)
 EQUIVALENT_FORMS = {
     # distance() is symmetric and zero on the diagonal is never included: the mean over ordered pairs equals the mean over unordered pairs (C07.R4 all-pairs accepts both)
@@ -468,10 +648,17 @@ EQUIVALENT_FORMS = {
 _canon_forms = []
 
 
-def block_table(stmts, unroll=1, max_paths=4000):
-    """decision table of a statement list (wrapped into a parameterless function)"""
+def block_table(stmts, unroll=1, max_paths=4000, fi=None):
+    """decision table of a statement list (wrapped into a parameterless function); `fi` = the function the statements
+    belong to (so that helpers newly extracted from it are interpreted in place)"""
     wrapper = ast.parse("def _block():\n    pass").body[0]
     wrapper.body = list(stmts)
+    if fi is not None:
+        from .decision import FUNC_INDEX
+
+        FUNC_INDEX[id(wrapper)] = fi
+    _H.mut = frozenset()
+    _H.inline_small = False
     return Evaluator(_H2() if unroll == 2 else _H(), max_paths=max_paths).paths(wrapper)
 
 
@@ -491,6 +678,25 @@ def compare_tables(ct, rt):
     if gone and new:
         findings.append(("condition-replaced", f"{gone[0]} -> {new[0]}", None,
                          f"the reviewed condition(s) {gone} no longer occur; the function now tests {new} instead (a weaker / stronger / different condition decides the same cases)"))
+    # ---- the same test made at fewer points of the run: `x.state[-1]` read before AND after a state-changing call in the
+    # reviewed version, read once now (a condition hoisted over the call that changes what it reads)
+    if not findings:
+        rv = {_norm_atom(a, keep_versions=True) for p in rt for a in p.atoms if not a.startswith(("more(", "raises("))}
+        cv = {_norm_atom(a, keep_versions=True) for p in ct for a in p.atoms if not a.startswith(("more(", "raises("))}
+        strip = lambda a: re.sub(r"@\d+", "", a)
+        for a in sorted(rv - cv):
+            base = strip(a)
+            if "@" not in a or base not in {strip(x) for x in cv}:
+                continue
+            # only reads of an object's state (`x.attr`, `x.attr[i]`); values of calls are fresh each time anyway
+            if "#" in a or not re.search(r"\.\w+(\[[^\]]*\])?@\d+", a) or re.search(r"\)@\d+", a):
+                continue
+            n_ref = len({x for x in rv if strip(x) == base})
+            n_cur = len({x for x in cv if strip(x) == base})
+            if n_cur < n_ref:
+                findings.append(("condition-moved", base[:80], None,
+                                 f"the reviewed version tests `{base[:120]}` at {n_ref} different points (before and after calls that change the object it reads); it is now tested at {n_cur}: a test was hoisted over a state-changing call, or dropped"))
+                break
     # ---- identical structure: compare the fine text of every atom, effect and result
     if len(ct) == len(rt) and not findings:
         def coarse(p):
@@ -498,7 +704,9 @@ def compare_tables(ct, rt):
 
         def fine(p):
             return (
-                tuple(_norm_atom(a) for a in p.atoms if not a.startswith("more(")),
+                # conditions keep their version marks here (`x.state[-1]@2`: read after two state-changing calls on x):
+                # the same test evaluated before instead of after a call that changes what it reads is a different test
+                tuple(_norm_atom(a, keep_versions=True) for a in p.atoms if not a.startswith("more(")),
                 tuple(tuple(_fine(x) for x in _bound_call(e)) for e in _relevant(p.effects)),
                 (p.result[0] if p.result[0] != "fall" else "return", _fine(p.result[1]) if p.result[0] != "raise" else str(p.result[1]).split("(")[0]),
             )
@@ -517,6 +725,7 @@ def compare_tables(ct, rt):
     cur_norm = [(_norm_atoms(p.atoms), p) for p in ct]
     cur_builds_locally = any(k[0] == "call" and str(k[1]).startswith("<local>.") for p in ct for k in (_eff_key(e) for e in _relevant(p.effects)))
     reported = set()
+    all_ref_keys = {k for p in rt for k in (_eff_key(e) for e in _relevant(p.effects))}
     for pr in rt:
         ra = _norm_atoms(pr.atoms)
         cands = [p for a, p in cur_norm if all(a.get(k, v) == v for k, v in ra.items())]
@@ -531,20 +740,57 @@ def compare_tables(ct, rt):
         best = None
         for pc in cands:
             have = [_eff_key(e) for e in _relevant(pc.effects)]
+            def _folded_elsewhere(w, pool):
+                # a reviewed call with constant operands corresponds to a call of the same name whose operand is not a
+                # constant here (the value is built differently, e.g. by a comprehension) - unless the current version
+                # also makes that call with OTHER constants (then the constant is what changed)
+                if w[0] != "call" or len(w) <= 2:
+                    return None
+                same = [h for h in pool if h[:2] == w[:2]]
+                if any(len(h) > 2 for h in same):
+                    return None
+                return same[0] if same else None
+
             if any(e[0] == "loop-bound" for e in pr.effects) or any(e[0] == "loop-bound" for e in pc.effects):
-                missing = [w for w in dict.fromkeys(want) if w not in have]
+                missing = [w for w in dict.fromkeys(want) if w not in have and _folded_elsewhere(w, have) is None]
             else:
                 pool = list(have)
                 missing = []
                 for w in want:
                     if w in pool:
                         pool.remove(w)
+                    elif _folded_elsewhere(w, pool) is not None:
+                        pool.remove(_folded_elsewhere(w, pool))
                     else:
                         missing.append(w)
             resdiff = not _res_equiv(pr, pc, ra)
             score = len(missing) + (1 if resdiff else 0)
             if best is None or score < best[0]:
                 best = (score, missing, resdiff, pc)
+        # the mirror image: something the reviewed version does elsewhere is now done in a reviewed case where it was not
+        # (a weakened guard: `and` -> `or`, a dropped test)
+        if cands and not any(e[0] == "loop-bound" for e in pr.effects):
+            ref_keys = set(want)
+            common = None
+            for pc in cands:
+                if any(e[0] == "loop-bound" for e in pc.effects):
+                    common = set()
+                    break
+                ks = {k for k in (_eff_key(e) for e in _relevant(pc.effects))}
+                common = ks if common is None else (common & ks)
+            ref_keys2 = {k[:2] for k in ref_keys}
+            for k in sorted(common or (), key=str):
+                if k[:2] in ref_keys2 or k not in all_ref_keys or (k[0] == "call" and str(k[1]).startswith("<local>.")):
+                    continue
+                if ("widened", k[:2]) in reported:
+                    continue
+                # only when the reviewed case decides strictly more than the current paths do (a guard disappeared)
+                if not all(set(_norm_atoms(pc.atoms)) < set(ra) or set(_norm_atoms(pc.atoms)) == set(ra) for pc in cands):
+                    continue
+                reported.add(("widened", k[:2]))
+                case = ", ".join(f"{kk}={'T' if v else 'F'}" for kk, v in ra.items() if not kk.startswith("more("))[:160]
+                findings.append(("widened-effect", f"{k[0]} {k[1] if len(k) > 1 else ''}", None,
+                                 f"in the reviewed case [{case}] the function did not perform `{k[0]} {' '.join(str(x) for x in k[1:])[:100]}`; every corresponding path now does (a guard was weakened or dropped)"))
         if best and best[0] > 0:
             score, missing, resdiff, pc = best
             case = ", ".join(f"{k}={'T' if v else 'F'}" for k, v in ra.items() if not k.startswith("more("))[:160]
